@@ -1,82 +1,43 @@
 import Clikit.Lemmas.SectionIndent
 import Clikit.Model.SectionGate
 /-!
-Lemmas for the gate layer of C15: a calm gated history is simulated by the indented history without the
+Lemmas for the gate layer of C15: a gated history is simulated by the indented history without the
 suppressed calls (`gflat`): same sections, same stream.
 -/
 namespace Clikit.Section
 open Clikit.Term Clikit.Gen
 
-theorem locate_spec {secs : List Sec} {i : Nat} {a : List Sec} {s : Sec} {b : List Sec}
-    (h : locate secs i = some (a, s, b)) : secs = a ++ s :: b := by
-  unfold locate at h
-  split at h
-  · exact split3_spec _ _ _ _ _ h
-  · cases h
-
-/-- `clear` / `clear(n)` on a section that holds nothing: nothing happens -/
-theorem modify_clear_nothing (w n : Nat) (secs : List Sec) (i : Nat) (h : holdsNothing secs i = true) :
-    modify secs i (fun a s => clearSec w a s n) = (secs, []) := by
-  unfold modify
-  unfold holdsNothing at h
-  cases hl : locate secs i with
-  | none => rfl
-  | some t =>
-    obtain ⟨a, s, b⟩ := t
-    rw [hl] at h
-    simp only at h
-    simp only [clearSec, h, if_true]
-    rw [← locate_spec hl]
-
-theorem quietSecs_nothing (w : Nat) (secs : List Sec) (o : Op)
-    (h : clears o = false ∨ holdsNothing secs (target o) = true) :
-    quietSecs w secs o = secs := by
-  cases o with
-  | create => rfl
-  | write i ls => rfl
-  | clear i =>
-    have h : holdsNothing secs i = true := by simpa [clears, target] using h
-    simp only [quietSecs, modify_clear_nothing w 0 secs i h]
-  | clearN i n =>
-    have h : holdsNothing secs i = true := by simpa [clears, target] using h
-    simp only [quietSecs, modify_clear_nothing w n secs i h]
-  | overwrite i ls =>
-    have h : holdsNothing secs i = true := by simpa [clears, target] using h
-    simp only [quietSecs, modify_clear_nothing w 0 secs i h]
-
 /-- the whole history -/
-theorem runG_sim (ansi : Bool) (w : Nat) (gops : List GOp) : ∀ (g : GState), calmG ansi w g gops = true →
+theorem runG_sim (ansi : Bool) (w : Nat) (gops : List GOp) : ∀ (g : GState),
     (runG ansi w g gops).1.st = (runI ansi w g.st (gflat g.cfg gops)).1 ∧
     (runG ansi w g gops).2 = (runI ansi w g.st (gflat g.cfg gops)).2 := by
   induction gops with
-  | nil => intro g _; exact ⟨rfl, rfl⟩
+  | nil => intro g; exact ⟨rfl, rfl⟩
   | cons op r ih =>
-    intro g hc
-    simp only [calmG, Bool.and_eq_true] at hc
-    obtain ⟨h1, h2⟩ := hc
+    intro g
     cases op with
     | create n q v =>
-      have h := ih _ h2
+      have h := ih (stepG ansi w g (.create n q v)).1
       simp only [stepG, stepIO] at h
       simp only [runG, stepG, gflat, runI, stepIO, List.nil_append]
       exact h
     | indent i n =>
-      have h := ih _ h2
+      have h := ih (stepG ansi w g (.indent i n)).1
       simp only [stepG, stepIO] at h
       simp only [runG, stepG, gflat, runI, stepIO, List.nil_append]
       exact h
     | verbosity i v =>
-      have h := ih _ h2
+      have h := ih (stepG ansi w g (.verbosity i v)).1
       simp only [stepG] at h
       simp only [runG, stepG, gflat, List.nil_append]
       exact h
     | quiet i q =>
-      have h := ih _ h2
+      have h := ih (stepG ansi w g (.quiet i q)).1
       simp only [stepG] at h
       simp only [runG, stepG, gflat, List.nil_append]
       exact h
     | write i ls f =>
-      have h := ih _ h2
+      have h := ih (stepG ansi w g (.write i ls f)).1
       cases hp : passes g.cfg i f with
       | false =>
         simp only [stepG, hp, Bool.false_eq_true, if_false] at h
@@ -87,20 +48,15 @@ theorem runG_sim (ansi : Bool) (w : Nat) (gops : List GOp) : ∀ (g : GState), c
         simp only [runG, stepG, gflat, hp, if_true, runI]
         exact ⟨h.1, by rw [h.2]⟩
     | op o =>
-      have h := ih _ h2
-      cases hq : (cfgOf g.cfg (target o)).quiet with
-      | true =>
-        have hn : clears o = false ∨ holdsNothing g.st.secs (target o) = true := by simpa [hq] using h1
-        have hs : (if ansi then quietSecs w g.st.secs o else g.st.secs) = g.st.secs := by
-          cases ansi
-          · rfl
-          · simp only [if_true]; exact quietSecs_nothing w _ o hn
-        simp only [stepG, hq, if_true, hs] at h
-        simp only [runG, stepG, gflat, hq, if_true, hs, List.nil_append]
-        exact h
+      have h := ih (stepG ansi w g (.op o)).1
+      cases hp : passes g.cfg (target o) none with
       | false =>
-        simp only [stepG, hq, Bool.false_eq_true, if_false] at h
-        simp only [runG, stepG, gflat, hq, Bool.false_eq_true, if_false, runI]
+        simp only [stepG, hp, Bool.false_eq_true, if_false] at h
+        simp only [runG, stepG, gflat, hp, Bool.false_eq_true, if_false, List.nil_append]
+        exact h
+      | true =>
+        simp only [stepG, hp, if_true] at h
+        simp only [runG, stepG, gflat, hp, if_true, runI]
         exact ⟨h.1, by rw [h.2]⟩
 
 end Clikit.Section
